@@ -692,6 +692,8 @@ def _g4(ck):
             elif isinstance(c, ast.UnaryOp) and isinstance(c.op, ast.Not) and isinstance(c.operand, ast.BoolOp) \
                     and isinstance(c.operand.op, ast.Or):
                 operands = [(o, True) for o in c.operand.values]        # not (a or b)  ==  not a and not b, left to right
+            elif isinstance(c, ast.UnaryOp) and isinstance(c.op, ast.Not):
+                operands = [(c.operand, True)]                           # `if a is None: continue` read as the filter `not (a is None)`
             else:
                 operands = [(c, False)]
             for o, negated in operands:
